@@ -175,6 +175,22 @@ def gen_seq_flags(rng, tier):
     return out
 
 
+def gen_seq_dict_orders(rng, tier):
+    """2..3 flops, per-flop initial_values dicts in every key order with non-uniform values"""
+    c0 = gen_seq(rng, tier)
+    while len(c0["circuit"]["bbs"]) < 2:
+        c0 = gen_seq(rng, tier)
+    insts = [b[0] for b in c0["circuit"]["bbs"]]
+    out = []
+    for perm in list(itertools.permutations(insts))[:4]:
+        vals = ["0", "1", "1"][:len(perm)] if rng.random() < 0.5 else ["1", "0", "0"][:len(perm)]
+        for sub in (perm, perm[:-1]):
+            c = json.loads(json.dumps(c0))
+            c.update(iv={k: v for k, v in zip(sub, vals)}, kind="seq-dict-order")
+            out.append(c)
+    return out
+
+
 def generate(rng, tier):
     nu, na, ns, nf = (90, 3, 60, 2) if tier == "quick" else (240, 8, 150, 5)
     sc = float(os.environ.get("VERIF_SCALE", "1"))      # <1 only for mutant trials on a loaded machine
@@ -186,6 +202,7 @@ def generate(rng, tier):
     out += [gen_seq(rng, tier) for _ in range(ns)]
     for _ in range(nf):
         out += gen_seq_flags(rng, tier)
+        out += gen_seq_dict_orders(rng, tier)
     return out
 
 
